@@ -333,6 +333,31 @@ func C10(p *Prog, r *Run) {
 				}
 			}
 		}
+		// who replaces a species' organism list on the epoch path? Only addOrganism (append) and
+		// removeOrganism (ordered filter, below); a list rebuilt elsewhere need not be fittest-first.
+		orgsF := p.Field(PkgG, "Species", "Organisms")
+		nWr := 0
+		for _, fn := range re.RepoFuncs() {
+			for _, st := range FieldStores(fn, orgsF) {
+				nWr++
+				okW := fn.Name() == "addOrganism" || fn.Name() == "removeOrganism"
+				if !okW {
+					// a constructor filling its own fresh species
+					if base, _, isApp := appendCall(st.Val); isApp {
+						if t := NewTermer(fn).Of(base); t.Op == "field" && t.Obj == orgsF {
+							okW = true
+						}
+					}
+					if fa, ok := st.Addr.(*ssa.FieldAddr); ok {
+						if _, fresh := fa.X.(*ssa.Alloc); fresh {
+							okW = true
+						}
+					}
+				}
+				r.Check(okW, "Organisms.writers:"+fn.Name(), p.Pos(st.Pos()), "a species' list is only appended to or filtered in order", FuncName(fn)+" replaces a species' organism list on the epoch path; after adjustFitness sorted it fittest-first only order-keeping updates (addOrganism's append, removeOrganism's ordered filter) keep Organisms[0] the champion that reproduce clones")
+			}
+		}
+		r.Floor("stores to Species.Organisms on the epoch path", nWr, 2)
 		// removeOrganism filters in order
 		rem := p.Func(PkgG, "Species.removeOrganism")
 		tr := NewTermer(rem)
